@@ -4,6 +4,8 @@ import XmppModel.Model.Encoder
 /-! Driver for C05 (see harness/c05 for the line protocol).
 
     tx <entry> <ns> <from|-> <startTok|-> <toks>   -> <status> <canonical wire tokens>
+    flush <entry> <form>                           -> 1 | 0   (is the element on the connection
+                                                       when the call returns)
     conc <n> <i0,i1,…>                             -> ok | bad   (is the observed order of
                                                        complete blocks a permutation of the calls)
 -/
@@ -27,6 +29,7 @@ def stanzaLine (cfg : Cfg) (k : Kind) (ts : List Tok) : String :=
   match stanzaSendToks k fresh ts with
   | .ok out => outLine cfg "ok" out
   | .error .notStart => "notstart -"
+  | .error .eof => "eof -"
   | .error .wrongKind => "wrongkind -"
 
 def handle (args : List String) : Option String :=
@@ -39,6 +42,7 @@ def handle (args : List String) : Option String :=
     | "send" =>
       match sendToks ts with
       | .ok out => pure (outLine cfg "ok" out)
+      | .error .eof => pure "eof -"
       | .error _ => pure "notstart -"
     | "sendel" => do
       let (n, as) ← startOf start
@@ -53,6 +57,7 @@ def handle (args : List String) : Option String :=
     | "msg" => pure (stanzaLine cfg .message ts)
     | "pres" => pure (stanzaLine cfg .presence ts)
     | _ => none
+  | ["flush", entry, form] => pure (showBool (flushesAtReturn entry form))
   | ["conc", n, order] => do
     let n ← n.toNat?
     let l ← mapM? (fun (s : String) => s.toNat?) (splitList order)
